@@ -494,7 +494,7 @@ fn run_history<T: Payload + chan::IntoHandle>(p: &HistParams, property: &str, fa
 }
 
 fn history_body(p: &HistParams, property: &'static str, family: &'static str) {
-    let log_name = format!("verif-hist-{:?}", std::thread::current().id()).replace(['(', ')'], "");
+    let log_name = chan::scratch_log_name("hist");
     let run = |origin: u32| -> (Vec<String>, Vec<u32>) {
         ctx::with_ctx(|c| c.spec.origin = origin);
         let mut undelivered: Vec<u32> = vec![];
@@ -652,7 +652,7 @@ impl Scenario for Hist {
             Flavour::Teardown | Flavour::Lifetimes => true,
             _ => rng.chance(1, 2),
         };
-        HistParams { sched: SchedSpec { policy: Policy::Uniform, seed: rng.next(), script: vec![], weak_cas: 0, stall: 0, starvation: 64, step_cap: 2_000_000, op_step_bound: 0, origin: 0 }, kind, buffer, max_streams, tracked, ops, other_origin, initial_streams: if self.flavour == Flavour::Lifetimes { rng.below(2) as usize } else { 1 } }
+        HistParams { sched: SchedSpec { policy: Policy::Uniform, seed: rng.next(), script: vec![], weak_cas: 0, stall: 0, starvation: 64, step_cap: 2_000_000, op_step_bound: 0, origin: 0, metric_origin: 0 }, kind, buffer, max_streams, tracked, ops, other_origin, initial_streams: if self.flavour == Flavour::Lifetimes { rng.below(2) as usize } else { 1 } }
     }
     fn sched<'a>(&self, p: &'a HistParams) -> &'a SchedSpec {
         &p.sched
